@@ -8,9 +8,12 @@ SQLITE = {"crawshaw.io/sqlite": "filippo.io/sunlight/internal/verifmc/vsqlite"}
 # compress/gzip -> byte-identical shim that recycles deflate state (performance only)
 GZIP = {"compress/gzip": "filippo.io/sunlight/internal/verifmc/vgzip"}
 
+# crawshaw.io/sqlite/sqlitex -> shim whose Save (start of the cache write transaction) is a scheduling point
+SQLITEX = {"crawshaw.io/sqlite/sqlitex": "filippo.io/sunlight/internal/verifmc/vsqlitex"}
+
 PRESETS = {
     "ctlog": {"internal/ctlog/ctlog.go": {**SYNC, **SQLITE, **GZIP}, "internal/ctlog/sqlite.go": {**SYNC, **SQLITE},
-              "internal/ctlog/cache.go": SQLITE},
+              "internal/ctlog/cache.go": {**SQLITE, **SQLITEX}},
     "witness": {"internal/witness/witness.go": SYNC,
                 "internal/ctlog/ctlog.go": {**SYNC, **SQLITE, **GZIP}, "internal/ctlog/sqlite.go": {**SYNC, **SQLITE},
                 "internal/ctlog/cache.go": SQLITE},
